@@ -441,7 +441,7 @@ func c03Describe(in []int64) string {
 }
 
 func init() {
-	Register(&Prop{ID: "C03", Num: 3, SpecMode: "equal", Gen: c03Gen, Impl: c03Impl,
+	Register(&Prop{ID: "C03", Pure: true, Num: 3, SpecMode: "equal", Gen: c03Gen, Impl: c03Impl,
 		Shrink: ShrinkOps(0, c03W), Describe: c03Describe,
 		Rule: "operation sequences on a zero-value RoaringBitmap: (1) short random sequences of Add/Remove/Contains/Len/Iter/Range/All/Buckets over 1-3 buckets with boundary lows; (2) exact fills of 4095..4098 values in ascending, descending and permuted order, drained to one value, emptied, re-created; (3) random scripts of AddRun/RemoveRun/single ops/observations over 1-3 buckets so that buckets cross the 4096 threshold in both directions, become empty and are re-created. Every Add/Remove/Contains result, Len, the bucket count and the full Iter / Range / All sequences (with early stop) are compared with the model and with the set-of-N specification. distinct = distinct case; non-trivial = at least 3 operations of 2 kinds (1), always (2), some run of >= 4097 values into one bucket (3)"})
 }
